@@ -40,7 +40,7 @@ class Directive:
 
 class Node:
     __slots__ = ('is_dir', 'data', 'children', 'mtime', 'atime', 'mode', 'ino',
-                 'dirty', 'durable', 't_used')
+                 'dirty', 'durable', 't_used', 'link')
 
     def __init__(self, is_dir, now, mode, ino):
         self.is_dir = is_dir
@@ -51,6 +51,7 @@ class Node:
         self.ino = ino
         self.dirty = True        # changed since the last simulated write-back
         self.durable = None      # bytes on "disk" at the last write-back (None: did not exist)
+        self.link = None         # symlink target (absolute simulated path) or None
         self.t_used = now        # when the content was really last read or written (oracle side;
                                  # not affected by utime())
 
@@ -104,20 +105,38 @@ class SimFS:
             raise HarnessError('path outside the simulated root: %r' % (s,))
         return [x for x in s[len(ROOT):].split('/') if x and x != '.']
 
-    def _walk(self, parts, path):
-        n = self.root
-        for p in parts:
+    def _walk(self, parts, path, follow_last=True):
+        """Resolve path components physically: `..` pops to the real parent, symlinks are followed."""
+        stack = [self.root]
+        parts = list(parts)
+        i = 0
+        hops = 0
+        while i < len(parts):
+            p = parts[i]
+            n = stack[-1]
             if not n.is_dir:
                 raise _err(errno.ENOTDIR, path, NotADirectoryError)
             if not n.mode & 0o100:
                 raise _eacces(path)
             if p == '..':
-                raise HarnessError('.. in simulated path %r' % (path,))
+                if len(stack) > 1:
+                    stack.pop()
+                i += 1
+                continue
             c = n.children.get(p)
             if c is None:
                 raise _enoent(path)
-            n = c
-        return n
+            if c.link is not None and (i < len(parts) - 1 or follow_last):
+                hops += 1
+                if hops > 8:
+                    raise _err(errno.ELOOP, path)
+                parts = self.parts(c.link) + parts[i + 1:]
+                stack = [self.root]
+                i = 0
+                continue
+            stack.append(c)
+            i += 1
+        return stack[-1]
 
     def lookup(self, path):
         if isinstance(path, int):
@@ -161,6 +180,35 @@ class SimFS:
         if d and d.after:
             raise d.after
         return r
+
+    def lstat(self, path, **kw):
+        d = self._seam('stat', path)
+        if isinstance(path, int):
+            n = self.lookup(path)
+        else:
+            n = self._walk(self.parts(path), path, follow_last=False)
+        if n.link is not None:
+            r = os.stat_result((statmod.S_IFLNK | 0o777, n.ino, 1, 1, 1000, 1000, len(n.link), n.atime, n.mtime,
+                                n.mtime))
+        else:
+            r = self._stat_result(n)
+        if d and d.after:
+            raise d.after
+        return r
+
+    def readlink(self, path, **kw):
+        self._seam('readlink', path)
+        n = self._walk(self.parts(path), path, follow_last=False)
+        if n.link is None:
+            raise _err(errno.EINVAL, path)
+        return n.link
+
+    def h_symlink(self, path, target):
+        par, name = self.parent(path)
+        n = self._new(False, 0o777)
+        n.link = target
+        par.children[name] = n
+        return n
 
     def access(self, path, mode, **kw):
         self._seam('access', path)
@@ -668,7 +716,7 @@ def install():
     if _installed:
         return
     _installed = True
-    for name, method in [('stat', 'stat'), ('lstat', 'stat'), ('mkdir', 'mkdir'),
+    for name, method in [('stat', 'stat'), ('lstat', 'lstat'), ('readlink', 'readlink'), ('mkdir', 'mkdir'),
                          ('rmdir', 'rmdir'), ('listdir', 'listdir'), ('scandir', 'scandir'),
                          ('remove', 'remove'), ('unlink', 'remove'), ('utime', 'utime'),
                          ('chmod', 'chmod'), ('access', 'access')]:
@@ -748,7 +796,7 @@ def install():
     os.fdopen = lambda fd, *a, **kw: (sim_open(fd, *a, **kw) if isinstance(fd, int) and fd >= FD_BASE
                                       else real_fdopen(fd, *a, **kw))
 
-    for name in ('link', 'symlink', 'truncate', 'readlink', 'chown', 'statvfs', 'mkfifo'):
+    for name in ('link', 'symlink', 'truncate', 'chown', 'statvfs', 'mkfifo'):
         if hasattr(os, name):
             setattr(os, name, _unmodelled(getattr(os, name), name))
 
